@@ -1,5 +1,6 @@
 import Cutadapt.Properties.C09
 import Cutadapt.Proofs.RegroupDefault
+import Cutadapt.Proofs.PairedRounds
 #print axioms Cutadapt.C09.best_is_argmax
 #print axioms Cutadapt.C09.best_none_iff
 #print axioms Cutadapt.C09.best_position_unique
@@ -21,3 +22,6 @@ import Cutadapt.Proofs.RegroupDefault
 #print axioms Cutadapt.C09.with_adapters_iff_match
 #print axioms Cutadapt.C09.default_pipeline_without_index
 #print axioms Cutadapt.C09.default_paired_pipeline_without_index
+#print axioms Cutadapt.C09.makeModsPaired_documented
+#print axioms Cutadapt.C09.paired_rounds_on_both_mates
+#print axioms Cutadapt.C09.paired_rounds_r2_only
